@@ -1252,6 +1252,8 @@ class Stage:
             except:
                 raise Exception("ocp.set_next missing for quadrature state defined at " + str(self._meta[k]))
         quad = veccat(*val)
+        if self.nz>0 or len(self._alg)>0:
+            raise Exception("Algebraic variables/equations are not supported for discrete-time (set_next) systems")
         dt = self.DT
         t = self.t
         if not depends_on(vertcat(next,quad), self.t):
